@@ -4,7 +4,7 @@
 //! second, longer wait before it is reported.
 //!
 //! stress --scenario <a,b,…> --seconds <n> --seed <n> --report <file>
-//! scenarios: hammer (C01 C02 C03 C06), askjoin (C03), late (C01 C10), blocking (C17 + C01 C02 C03 C13), ids (C11), idlewin (C08)
+//! scenarios: hammer (C01 C02 C03 C06), askjoin (C03), late (C01 C10), blocking (C17 + C01 C02 C03 C13), ids (C11), idlewin (C08), lazyfut (C16)
 
 use rsactor::{spawn, spawn_with_mailbox_capacity, Actor, ActorRef, ActorWeak, Message};
 use std::sync::atomic::{AtomicBool, AtomicU64, Ordering::SeqCst};
@@ -538,6 +538,43 @@ fn blocking(rep: &mut Report) {
             rep.v("C17 C01", "a blocking_tell that timed out was handled".into());
         }
     }
+    // (b2) one deadline for the whole call: the mailbox frees a slot after part of the budget has been
+    //      spent, and the reply (or, for tell, nothing) is then still 1.5 s away
+    for name in ["blocking_ask", "blocking_tell"] {
+        let log = Arc::new(Mutex::new(vec![]));
+        let (r, jh) = rt.block_on(async { spawn_with_mailbox_capacity::<B>((log.clone(), 300), 1) });
+        r.blocking_tell(W(1), None).unwrap(); // in the handler for 300 ms
+        std::thread::sleep(Duration::from_millis(20));
+        r.blocking_tell(W(2), None).unwrap(); // fills the only slot; will be in the handler from 300 to 600 ms
+        let d_ms = 450u64;
+        let t0 = Instant::now();
+        let res = if name == "blocking_ask" {
+            r.blocking_ask(W(3), Some(Duration::from_millis(d_ms))).map(|_| ())
+        } else {
+            r.blocking_tell(W(3), Some(Duration::from_millis(d_ms)))
+        };
+        let took = t0.elapsed();
+        calls += 1;
+        match (name, &res) {
+            // the slot frees at ~280 ms: the tell is accepted within its budget
+            ("blocking_tell", Ok(())) => {
+                if took > Duration::from_millis(d_ms + 200) {
+                    rep.v("C17 C10", format!("blocking_tell({d_ms} ms) returned Ok after {took:?}: later than the deadline"));
+                }
+            }
+            // the ask is accepted at ~280 ms but its reply cannot come before ~900 ms: Timeout at 450 ms
+            ("blocking_ask", Err(rsactor::Error::Timeout { .. })) => {
+                if took < Duration::from_millis(d_ms) || took > Duration::from_millis(d_ms + 200) {
+                    rep.v("C17 C10", format!("blocking_ask({d_ms} ms) whose send waited ~280 ms for a slot returned Timeout after {took:?}: the deadline is {d_ms} ms from the call (one deadline for send and reply together)"));
+                }
+            }
+            (_, other) => rep.v("C17 C10", format!("{name}({d_ms} ms) with a slot freeing at ~280 ms and a reply due at ~900 ms: got {other:?} after {took:?}")),
+        }
+        rt.block_on(async {
+            let _ = r.kill();
+            let _ = tokio::time::timeout(Duration::from_secs(10), jh).await;
+        });
+    }
     // (c) the timeout variants may be called from inside a runtime context
     {
         let ok = rt.block_on(async {
@@ -773,6 +810,113 @@ fn idlewin(rep: &mut Report) {
     rep.s("idlewin", format!("cases={cases}"));
 }
 
+// ------------------------------------------------------------------------------------------------ lazyfut
+/// C16 on the dimension the step-by-step correspondence does not vary: a future obtained from a handle is
+/// created at one instant and first polled at a later one.  Every future-returning method is run directly
+/// and through each trait object on a paused clock; outcomes, virtual elapsed times and handling order
+/// must be identical.
+struct L {
+    log: Arc<Mutex<Vec<u32>>>,
+}
+struct D(u32, u64); // id, handler duration (virtual ms)
+impl Actor for L {
+    type Args = Arc<Mutex<Vec<u32>>>;
+    type Error = String;
+    async fn on_start(a: Self::Args, _: &ActorRef<Self>) -> Result<Self, String> {
+        Ok(L { log: a })
+    }
+}
+impl Message<D> for L {
+    type Reply = u32;
+    async fn handle(&mut self, m: D, _: &ActorRef<Self>) -> u32 {
+        self.log.lock().unwrap().push(m.0);
+        if m.1 > 0 {
+            tokio::time::sleep(Duration::from_millis(m.1)).await;
+        }
+        m.0
+    }
+}
+
+fn lazyfut(rep: &mut Report) {
+    use rsactor::{ActorControl, AskHandler, TellHandler};
+    let rt = tokio::runtime::Builder::new_current_thread().enable_time().start_paused(true).build().unwrap();
+    let mut cells = 0u64;
+    rt.block_on(async {
+        // variants: 0 direct, 1 Box<dyn TellHandler>/AskHandler/ActorControl from &ActorRef, 2 the same after clone_boxed
+        for op in ["tellt", "askt", "tell", "ask", "stop"] {
+            for delay in [0u64, 60] {
+                for timeout in [100u64, 40] {
+                    for busy in [120u64, 30] {
+                        for fill in [false, true] {
+                            let mut outs: Vec<(String, u128, Vec<u32>)> = vec![];
+                            for variant in 0..3u32 {
+                                let log = Arc::new(Mutex::new(vec![]));
+                                let (r, jh) = spawn_with_mailbox_capacity::<L>(log.clone(), 1);
+                                r.tell(D(1, busy)).await.unwrap();
+                                tokio::time::sleep(Duration::from_millis(1)).await;
+                                if fill {
+                                    r.tell(D(2, 0)).await.unwrap();
+                                }
+                                let th: Box<dyn TellHandler<D>> = if variant == 2 { TellHandler::clone_boxed(&r) } else { (&r).into() };
+                                let ah: Box<dyn AskHandler<D, u32>> = if variant == 2 { AskHandler::clone_boxed(&r) } else { (&r).into() };
+                                let ch: Box<dyn ActorControl> = if variant == 2 { ActorControl::clone_boxed(&r) } else { (&r).into() };
+                                let t0 = tokio::time::Instant::now();
+                                let to = Duration::from_millis(timeout);
+                                let fut: futures::future::BoxFuture<'_, String> = match (op, variant) {
+                                    ("tellt", 0) => Box::pin(async { format!("{:?}", r.tell_with_timeout(D(9, 0), to).await.map_err(|e| kind(&e))) }),
+                                    ("tellt", _) => { let f = th.tell_with_timeout(D(9, 0), to); Box::pin(async move { format!("{:?}", f.await.map_err(|e| kind(&e))) }) }
+                                    ("askt", 0) => Box::pin(async { format!("{:?}", r.ask_with_timeout(D(9, 0), to).await.map_err(|e| kind(&e))) }),
+                                    ("askt", _) => { let f = ah.ask_with_timeout(D(9, 0), to); Box::pin(async move { format!("{:?}", f.await.map_err(|e| kind(&e))) }) }
+                                    ("tell", 0) => Box::pin(async { format!("{:?}", r.tell(D(9, 0)).await.map_err(|e| kind(&e))) }),
+                                    ("tell", _) => { let f = th.tell(D(9, 0)); Box::pin(async move { format!("{:?}", f.await.map_err(|e| kind(&e))) }) }
+                                    ("ask", 0) => Box::pin(async { format!("{:?}", r.ask(D(9, 0)).await.map_err(|e| kind(&e))) }),
+                                    ("ask", _) => { let f = ah.ask(D(9, 0)); Box::pin(async move { format!("{:?}", f.await.map_err(|e| kind(&e))) }) }
+                                    (_, 0) => Box::pin(async { format!("{:?}", r.stop().await.map_err(|e| kind(&e))) }),
+                                    (_, _) => { let f = ch.stop(); Box::pin(async move { format!("{:?}", f.await.map_err(|e| kind(&e))) }) }
+                                };
+                                // between creation and first poll: time passes and another message is sent
+                                if delay > 0 {
+                                    tokio::time::sleep(Duration::from_millis(delay)).await;
+                                }
+                                let r2 = r.clone();
+                                let side = tokio::spawn(async move { let _ = r2.tell_with_timeout(D(5, 0), Duration::from_millis(500)).await; });
+                                tokio::time::sleep(Duration::from_millis(1)).await;
+                                let res = fut.await;
+                                let took = t0.elapsed().as_millis();
+                                let _ = side.await;
+                                tokio::time::sleep(Duration::from_millis(300)).await;
+                                let _ = r.kill();
+                                let _ = jh.await;
+                                let l = log.lock().unwrap().clone();
+                                outs.push((res, took, l));
+                            }
+                            cells += 1;
+                            for v in 1..3 {
+                                if outs[v] != outs[0] {
+                                    rep.v("C16", format!(
+                                        "{op} (timeout {timeout} ms) created, first polled {delay} ms later, actor busy {busy} ms, mailbox {}: direct ActorRef gives (result {}, {} ms, handled {:?}) but the {} trait object gives (result {}, {} ms, handled {:?})",
+                                        if fill { "full" } else { "free" }, outs[0].0, outs[0].1, outs[0].2,
+                                        if v == 1 { "From<&ActorRef>" } else { "clone_boxed" }, outs[v].0, outs[v].1, outs[v].2));
+                                }
+                            }
+                        }
+                    }
+                }
+            }
+        }
+    });
+    rep.s("lazyfut", format!("cells={cells} (x3 variants)"));
+}
+
+fn kind(e: &rsactor::Error) -> &'static str {
+    match e {
+        rsactor::Error::Send { .. } => "send",
+        rsactor::Error::Receive { .. } => "receive",
+        rsactor::Error::Timeout { .. } => "timeout",
+        _ => "other",
+    }
+}
+
 fn main() {
     harness::quiet_panics();
     let args: Vec<String> = std::env::args().collect();
@@ -799,6 +943,7 @@ fn main() {
             "blocking" => blocking(&mut rep),
             "ids" => ids(&mut rep),
             "idlewin" => idlewin(&mut rep),
+            "lazyfut" => lazyfut(&mut rep),
             o => panic!("unknown scenario {o}"),
         }
     }
